@@ -163,9 +163,55 @@ def run_case(case):
     return res
 
 
+def run_multi(case):
+    """several live instances, operations interleaved: ops are [instance index, op...]"""
+    init()
+    inst = [PARENTS[t]() for t in case['multi']]
+    res = []
+    for i, op in enumerate(case['ops']):
+        e = inst[op[0]]
+        o = op[1:]
+        st = 'ok'
+        req = None
+        buf = io.StringIO()
+        with contextlib.redirect_stdout(buf), contextlib.redirect_stderr(buf):
+            try:
+                k = o[0]
+                u = e.get_children(ordered=False)
+                if k == 'a':
+                    c = make(o[1]); c._vid = i; e.add_child(c)
+                elif k == 'w':
+                    c = make(o[1]); c._vid = i; e.add_child(c, forward=o[2])
+                elif k == 'r':
+                    if o[1] < len(u):
+                        e.remove(u[o[1]])
+                elif k == 'q':
+                    if o[1] < len(u):
+                        c = make(u[o[1]].name); c._vid = i; e.replace_child(u[o[1]], c)
+                elif k == 'f':
+                    r = e.child_container_tree.get_required_element_names(intelligent_choice=bool(o[1]))
+                    req = [CLS2NAME.get(x, x) for x in flat(r)]
+                elif k == 's':
+                    e.to_string()
+            except Exception as ex:
+                st = type(ex).__name__
+        ob = {'st': st, 'pr': bool(buf.getvalue()), 'uno': [c.name for c in e.get_children(ordered=False)]}
+        try:
+            ob['ord'] = [c.name for c in e.get_children(ordered=True)]
+        except Exception as ex:
+            ob['ord'] = 'EXC:' + type(ex).__name__
+        if req is not None:
+            ob['req'] = req
+        res.append(ob)
+    return res
+
+
 def work(line):
     try:
-        return json.dumps(run_case(json.loads(line)))
+        c = json.loads(line)
+        if 'multi' in c:
+            return json.dumps(run_multi(c))
+        return json.dumps(run_case(c))
     except Exception as ex:
         return json.dumps({'error': type(ex).__name__ + ': ' + str(ex)})
 
